@@ -1,6 +1,6 @@
 (* Monomorphic entry points of the executable model, one per oracle request.
    Definitions only. *)
-From Coq Require Import List NArith ZArith QArith Bool Arith.
+From Coq Require Import List NArith ZArith QArith Qround Bool Arith.
 From PV Require Import lib.Edits lib.LevDP lib.Str.
 Import ListNotations.
 
@@ -46,3 +46,45 @@ Definition api_custom_dist (which : nat) (a b : str) : Q := Qred (custom_dist wh
 (* ---- C02 / C06: generated pc_n, varpc_n over Q ---- *)
 Definition api_gen_pc_n (n : list Q) : (bool * Q) := (gen_pc_n_defined n, Qred (gen_pc_n_Q n)).
 Definition api_gen_varpc_n (n : list Q) : (bool * Q) := (gen_varpc_n_defined n, Qred (gen_varpc_n_Q n)).
+
+(* ---- engines (C03, C04, C07, C11, C14) ---- *)
+From PV Require Import model.Nbrs model.Kdtree model.Engines.
+Definition idn (d : nat) : nat := d.
+Definition qkey2 (q : Q) : nat := Z.to_nat (Qfloor (q * 2)).   (* order key for custom distances that are multiples of 1/2 *)
+Definition api_kdtree_lev (k comp : nat) (limit : option nat) (seqs : list str) := kdtree_model (keep_lev k) idn k comp limit seqs.
+Definition api_kdtree_ham (k comp : nat) (limit : option nat) (seqs : list str) := kdtree_hamming (keep_ham k) idn k comp limit seqs.
+Definition api_kdtree_custom (which k : nat) (maxc : option Q) (comp : nat) (limit : option nat) (seqs : list str) :=
+  redq (kdtree_model (keep_custom (custom_dist which) k maxc) qkey2 k comp limit seqs).
+Definition api_hash_lev (k : nat) (seqs : list str) := hash_model val_lev (lev_nbrs aa_letters) k seqs.
+Definition api_hash_ham (k : nat) (seqs : list str) := hash_model val_ham (ham_nbrs aa_letters) k seqs.
+Definition api_hash_custom (which k : nat) (maxc : option Q) (seqs : list str) :=
+  redq (hash_model (val_custom (custom_dist which) maxc) (lev_nbrs aa_letters) k seqs).
+Definition api_lookupdb_lev (k : nat) (refs queries : list str) := lookupdb_lookup val_lev (lev_nbrs aa_letters) k false refs queries.
+Definition api_lookupdb_ham (k : nat) (refs queries : list str) := lookupdb_lookup val_ham (ham_nbrs aa_letters) k false refs queries.
+Definition api_encode (comp : nat) (s : str) : list Z := encode comp s.
+(* ---- C12 ---- *)
+Definition api_lev_nbrs (al : list N) (x : str) : list str := lev_nbrs al x.
+Definition api_ham_nbrs_pos (al : list N) (pos : list nat) (x : str) : list str := ham_nbrs_pos al pos x.
+Definition api_next_nearest (ham : bool) (al : list N) (m : nat) (x : str) : list str :=
+  next_nearest (if ham then ham_nbrs al else lev_nbrs al) m x.
+Definition api_find_pairs (ham : bool) (al : list N) (seqs : list str) : list (str * str) :=
+  find_pairs (if ham then ham_nbrs al else lev_nbrs al) seqs.
+Definition api_neighbor_numbers (ham : bool) (al : list N) (seqs ref : list str) : list nat :=
+  neighbor_numbers (if ham then ham_nbrs al else lev_nbrs al) seqs ref.
+Definition api_isdist1 (ham : bool) (al : list N) (x : str) (ref : list str) : bool :=
+  isdist1 (if ham then ham_nbrs al else lev_nbrs al) x ref.
+Definition api_ball (ham : bool) (al : list N) (k : nat) (x : str) : list str :=
+  ball (if ham then ham_nbrs al else lev_nbrs al) k x.
+(* nearest Hamming distance to an equal-length reference, capped at maxdist (specification-level) *)
+Definition api_nndist_ham (maxdist : nat) (x : str) (ref : list str) : nat :=
+  fold_left (fun m r => match sham x r with Some h => Nat.min m h | None => m end) ref maxdist.
+
+(* ---- C14: nearest_neighbor_tcrdist glue ---- *)
+From PV Require Import model.Tcrdist gen.Gen_data.
+Definition mk_tcr (r : str * str * str * str) : tcr :=
+  let '(va, ca, vb, cb) := r in Build_tcr va ca vb cb.
+Definition api_tcrdist_nn (chain k : nat) (trimmed : bool) (maxt : Z) (ntrim ctrim w gap : nat)
+           (rows : list (str * str * str * str)) : list (nat * nat * Z) :=
+  tcrdist_nn vdists_alpha vdists_beta (cdr3_standin ntrim ctrim w gap) chain k
+             (if trimmed then Some (ntrim, ctrim) else None) maxt (map mk_tcr rows).
+Definition api_vtable_labels (alpha : bool) : list str := fst (fst (if alpha then vdists_alpha else vdists_beta)).
